@@ -237,20 +237,37 @@ PROPS = {
                 "real sparse_tree_search_closure, query handed over as sorted / unsorted CSR, CSR with a stored zero, ndarray and passed "
                 "to the closure as query()'s sparse branch prepares it; search_rng_state unchanged by the call) with the UNCHANGED model "
                 "(the closures differ only in how dist is evaluated: heapify of the empty seed list is a no-op, distance_bound / d_vertex "
-                "are inferred float32, the zero-norm branch is dead); the hypotheses of the theorems (CSR well-formed, leaf duplicate-free, draws < n, raw = data[vo]) are checked on "
+                "are inferred float32, the zero-norm branch is dead); both closures are also compared on MULTI-ROW batches: serial mode, "
+                "2..6 rows (same indexes, plus a dense cosine index with zero-norm rows), row i's leaf and draws taken from ONE copy of "
+                "search_rng_state which the real _tree_search / tau_rand_int advance from row to row exactly as far as the loop does (a "
+                "`continue`d zero-norm row draws nothing and is the model's skippedRow), every row's raw heap, sorted row and public "
+                "answer, the visited table the LAST row leaves in a table handed over full of ones, and the unchanged caller state "
+                "compared bit-for-bit; and on indexes built with parallel_batch_queries=True (dense and sparse closures), 1..6 rows, row i "
+                "against the model run on the leaf / draws obtained from search_rng_state + i with an empty visited table, the caller's "
+                "table (ones / zeros) and state untouched, the batch bit-identical to its rows submitted one by one with rng_state + i "
+                "(the instance of batch_rows_independent that C05 relies on) and to the same call repeated under "
+                "numba.set_num_threads(1 / 2 / 4), query() itself run under the default / 1 / 2 / 4 threads in turn; "
+                "the hypotheses of the theorems (CSR well-formed, leaf duplicate-free, draws < n, raw = data[vo]) are checked on "
                 "the real arrays; the property predicate (distinct, in range, -1 last, ascending, distance = independent float64 metric of "
                 "the query and the CALLER's row) is evaluated on real query() output for dense / CSR / bit-packed data x tree_init x "
                 "compressed x parallel_batch_queries, k > n_neighbors, k > n, zero-norm queries, data points as queries, eps in {0,.1,.5}",
-        "note": TB + "the sampled bit-exact correspondence between Model/Search.lean and search_closure (dense and sparse closures, serial mode, "
-                     "single-row batches, euclidean / manhattan — quick tier, sparse: the tree-routed euclidean index plus, alternating "
-                     "with the seed, euclidean random-init or manhattan random-init closures; the full cross in the thorough tier; parallel mode has the same loop body and is covered by the API-level "
-                     "predicate only; sparse data rows and queries are non-empty and, with tree_init, distinct: routing through an empty "
+        "note": TB + "the sampled bit-exact correspondence between Model/Search.lean and search_closure (dense and sparse closures; serial mode: "
+                     "single-row batches and batches of 2..6 rows with the generator state carried from row to row; parallel mode "
+                     "(parallel_batch_queries=True): batches of 1..6 rows with the states rng_state + i; euclidean / manhattan, serial batches "
+                     "also dense cosine with exactly normalisable (power-of-two norm) and zero queries — quick tier, sparse: the tree-routed "
+                     "euclidean index plus, alternating with the seed, euclidean random-init or manhattan random-init closures, parallel: "
+                     "one dense and one sparse euclidean index, one tree-routed and one random-init, alternating with the seed; the full "
+                     "cross in the thorough tier; thread schedules of the parallel loop are sampled (default / 1 / 2 / 4 threads, repeated "
+                     "calls), not enumerated; the visited table of a parallel row or of a serial row other than the last is private / "
+                     "overwritten and is compared only through its effect on the raw heap; "
+                     "sparse data rows and queries are non-empty and, with tree_init, distinct: routing through an empty "
                      "hyperplane / empty operand reads out of bounds, memory safety is outside the model); "
                      "dist(data[v], q) is an input of the model (its truth is C07/C08/C09); the final distance correction is applied by "
                      "the real ufunc (C09); float32 distances without NaN; that parallel iterations touch only their own row and private "
                      "tables is C05's footprint check",
         "explanation": "theorems over every graph / distance table / leaf / generator stream / k / eps / fuel; bit-exact correspondence of "
-                       "raw heap, visited table, sorted row, translated answer; API predicate with float64 references in caller numbering",
+                       "raw heap, visited table, sorted row, translated answer for single rows, serial multi-row batches (carried generator "
+                       "state) and parallel batches (state + i, thread-count invariance); API predicate with float64 references in caller numbering",
         "assumptions": COMMON_ASSUMPTIONS + [
             "float32 distances are totally ordered (no NaN reaches the heap or the seed set), np.inf is the greatest value",
             "the search graph is an n x n CSR matrix (indices < n, indptr monotone, len n+1), the tree leaf is a slice of a permutation "
